@@ -96,7 +96,9 @@ def _space_uses(repo, col, cl: Classifier):
                           "external_inds[k] and externals[k] of the key being clamped",
                           "the clamp mixes indices and values of different keys", node=n)
     if n_sc < 2:
-        raise AnalysisError("Module.step: clamp scatters not found")
+        col.bad("R-C08-order", fi, "step applies the clamps of voltage and of channel/synapse states",
+                f"only {n_sc} clamp scatter(s) `u[key].at[external_inds[key]].set(externals[key])` are left in Module.step: clamped "
+                f"states are not held at their clamp value", node=fi.node)
 
     # ---- in-view filters: isin(slot, rows-in-view)
     for cls, name in (("Module", "delete_clamps"), ("View", "_set_externals_in_view"), ("View", "__init__")):
@@ -246,7 +248,10 @@ def _order(repo, col):
     i_clamp = next((i for i, st in enumerate(body) if clamp_stmt(st, False) is not None), None)
     i_vclamp = next((i for i, st in enumerate(body) if clamp_stmt(st, True) is not None), None)
     if i_clamp is None or i_vclamp is None:
-        raise AnalysisError("Module.step: clamp statements not found")
+        col.bad(R, fi, "step contains the state clamp and the voltage clamp",
+                f"{'the clamp of channel/synapse states' if i_clamp is None else 'the voltage clamp'} is missing from Module.step",
+                node=fi.node)
+        return
     col.check(i_clamp > i_chan and i_clamp > i_syn, R, fi, "state clamp after _step_channels and _step_synapse",
               "the returned state equals the clamp value",
               "the clamp of channel/synapse states is applied before a state update that overwrites it",
